@@ -15,6 +15,16 @@ Oracle ON THE IMPLEMENTATION (every generated case):
   * permutations: the subsets' bit strings concatenated in another order decode to the permuted
     result (all orders for n <= 4, random orders above) and the encoder given the reversed subsets
     produces the reversed bits.
+COMPILED PATH (the property quantifies over the decoder / encoder AS CONFIGURED): every case is also run through
+`Decoder(compiled_template_cache_max=K)` / `Encoder(compiled_template_cache_max=K)`, K rotating over 1, 2, 8 and 0
+(long-lived objects: first use of a template = compile, every later use = the cached program; K = 0 compiles every
+time): the compiled encoder on s1..sn together vs each si alone (status, reported labels / links, data bits of
+together = the alone bit strings in a row), the compiled decoder on the together-message TWICE (first use, cached
+program) vs on each alone message (values, labels, links position by position; fails together iff some subset
+fails alone, with that subset's error family), and on the subsets in reverse order.  The messages are those of
+the compiled encoder (encoder and decoder run the same program, so the subset boundaries agree whatever the
+template) and - for templates in the class where the model proves compiled = interpreted (`compile` op: `closed`,
+or `loose`) - also the messages of the plain encoder.
 Correspondence: the together-message is decoded by the model (`dec-subsets`) and wired by the model (`wire`,
 i.e. `wireAll`, about which Props/C06Wire.lean proves "subset by subset"); flat lists and node trees are compared.
 
@@ -23,7 +33,8 @@ replication counts), plus families where state carried over would show: delayed 
 bitmap with different counts and bitmaps per subset (F4), bitmap reuse 236000/237000, 235000 / 237255,
 203YYY defined in one subset only, 201/202/207/208 left open at the end, 204 left open, 221 count left
 open, 206 pending at the end, 203 definition left open, QA-info status pending, templates ending inside
-a bitmap definition, an associated-field / statistics meaning defined in one subset only.
+a bitmap definition, an associated-field / statistics meaning defined in one subset only, marker operators
+processed while 201 / 202 / 207 / 208 is in force (`marker-under-*`; bitmaps differ per subset).
 Plus the layout-varying bitmap templates of harness/c06gen.py (`layout`): several delayed replications of
 DIFFERENT elements, nested replication, 205YYY / 206YYY / 204YYY items in front of 1..3 bitmap constructs
 (222000 and the marker operators, 236000 / 237000 / 237255 / 235000 chains), with per-subset factors that
@@ -48,13 +59,19 @@ META = dict(
          'strings gives, position by position, what decoding each alone gives; permuting the subsets permutes the result; '
          'the encoder\'s bits and reports (labels, links) of together are those of each alone in a row, in any order; the node '
          'tree of subset i is a function of the template and the flat lists of subset i alone, and the message fails to wire '
-         'iff some subset fails alone - for all templates of the model and any n; plus the tie to pybufrkit: '
-         'together-vs-alone oracle on the implementation (values, labels, links, nested JSON; alone = re-encoded and = cut at '
-         'the model\'s bit boundaries), encoder concatenation, all orders for n <= 4 / random orders above, model-vs-'
-         'implementation correspondence of flat lists and node trees on the together-message, on templates with differing '
-         'replication counts and bitmaps per subset, on templates that end inside an operator construct, and on templates '
-         'with several delayed replications of different elements in front of bitmap constructs whose per-subset factors '
-         'compensate each other (equal flat length and bitmap length, different arrangement).',
+         'iff some subset fails alone - for all templates of the model and any n; THE SAME ON THE COMPILED-TEMPLATE PATH '
+         '(Props/C06Compiled.lean): executing ANY compiled program subset by subset equals executing it on each subset alone '
+         '(decode and encode, any n, any order; no class hypothesis), for scopeClosed templates that is decoding each subset '
+         'alone with the interpreted walk, and first use (compile) and later uses (cache) hand out the same program; plus the '
+         'tie to pybufrkit: together-vs-alone oracle on the implementation (values, labels, links, nested JSON; alone = '
+         're-encoded and = cut at the model\'s bit boundaries), encoder concatenation, all orders for n <= 4 / random orders '
+         'above, EVERY CASE ALSO THROUGH Decoder/Encoder(compiled_template_cache_max = 1, 2, 8, 0) (first use = compile, '
+         'second use = cached program, once more after the alone messages went through the same object, reverse order), '
+         'model-vs-implementation correspondence of flat lists and node trees on the together-message, on templates with '
+         'differing replication counts and bitmaps per subset, on templates that end inside an operator construct, on marker '
+         'operators processed while 201/202/207/208 is in force, and on templates with several delayed replications of '
+         'different elements in front of bitmap constructs whose per-subset factors compensate each other (equal flat length '
+         'and bitmap length, different arrangement).',
     technique='Lean 4 theorems (frame lemma by mutual structural induction over the template walk; wiring per subset) + '
               'metamorphic oracle on the implementation + checked model/implementation correspondence',
     note='The mutable node objects of templatedata.py are modelled by value (View/Wire.lean): sharing of node objects '
@@ -299,6 +316,68 @@ class Families(object):
         return c, fps
 
 
+class MarkerOpGen(object):
+    """marker operators (22X255 / 232255) processed while 201 / 202 / 207 / 208 is IN FORCE, with bitmaps that differ per
+    subset: the compiled path re-creates the operator registers for every marker statement (`state_properties`), the
+    interpreted path carries them in the state; both have to start every subset afresh"""
+
+    def __init__(self, rng):
+        self.rng = rng
+        self.tg = C.TemplateGen(rng, level=2)
+
+    def make(self, idx):
+        rng, tg = self.rng, self.tg
+        op = rng.choice([201, 201, 202, 207, 208, '201+202'])
+        k = rng.randint(1, 3)
+        if op == 208:
+            els = [rng.choice(tg.string) for _ in range(k)]
+            opens, closes = [208000 + rng.randint(1, 12)], [208000]
+        else:
+            els = [rng.choice(tg.numeric) for _ in range(k)]
+            if op == 201:
+                opens, closes = [201000 + rng.choice([129, 130, 126, 135])], [201000]
+            elif op == 202:
+                opens, closes = [202000 + rng.choice([129, 130, 127])], [202000]
+            elif op == 207:
+                opens, closes = [207000 + rng.randint(1, 3)], [207000]
+            else:
+                opens, closes = [201000 + rng.choice([129, 130]), 202000 + rng.choice([129, 127])], [202000, 201000]
+        m = rng.choice([223, 224, 225, 232]) if op != 208 else rng.choice([223, 232])
+        lead = [tg.element_plain()[0] for _ in range(rng.randint(0, 2))]
+        if rng.random() < 0.5:
+            ids = lead + opens + els          # the elements are under the operator as well
+        else:
+            ids = lead + els + opens          # only the markers are
+        n = rng.randint(2, 4)
+        fps = [dict() for _ in range(n)]
+        mean = {224: [8023], 225: [8024]}.get(m, [])
+        if op in (201, 208):
+            # bitmap length and number of markers by delayed replication: both differ per subset
+            ids += [m * 1000, 101000, 31002, 31031] + mean + [101000, 31002, m * 1000 + 255]
+            for f in fps:
+                nb = rng.randint(1, k + len(lead))
+                bits = [rng.randint(0, 1) for _ in range(nb)]
+                f[31002] = [nb, bits.count(0)]
+                f[31031] = bits
+        else:
+            # a scale change in force would apply to a delayed replication factor too (the count becomes a float and is
+            # refused): fixed replication, the same number of zero bits in other positions per subset
+            nb = rng.randint(1, k + len(lead))
+            z = rng.randint(1, nb)
+            ids += [m * 1000, 101000 + nb, 31031] + mean + [101000 + z, m * 1000 + 255]
+            for f in fps:
+                bits = [0] * z + [1] * (nb - z)
+                rng.shuffle(bits)
+                f[31031] = bits
+        if rng.random() < 0.6:
+            ids += closes
+        if rng.random() < 0.5:
+            ids += [rng.choice(tg.numeric)]
+        c = P.Case([ids], [], n, False, rng.choice([4, 4, 3]), idx)
+        c.note = 'marker-under-%s' % op
+        return c, fps
+
+
 def gen_values(drv, treq, pairs, rng):
     """pairs: (case, fps | None).  fills case.valss through the model's generate mode (structure not shared)"""
     reqs = [treq]
@@ -321,6 +400,124 @@ def gen_values(drv, treq, pairs, rng):
     return out
 
 
+
+# ---------------------------------------------------------------------------------------------
+# the compiled path
+COMPILED_KS = (1, 2, 8, 0)      # cache limits of CompiledTemplateManager: eviction after 1 / 2 templates, everything kept, nothing kept
+
+
+def k_of(c):
+    return COMPILED_KS[c.idx % len(COMPILED_KS)]
+
+
+def concat_matches(whole, parts):
+    """is `whole` (data bits incl. padding) = parts[0][:L0] ++ parts[1][:L1] ++ ... ++ zero padding (< 16 bits), where every
+    L_k drops only trailing zero bits (< 16: the padding of the alone message) of parts[k]?"""
+    memo = {}
+
+    def rec(pos, k):
+        key = (pos, k)
+        if key in memo:
+            return memo[key]
+        if k == len(parts):
+            rest = whole[pos:]
+            r = set(rest) <= {'0'} and len(rest) < 16
+        else:
+            p = parts[k]
+            lo = max(len(p.rstrip('0')), len(p) - 15, 0)
+            r = False
+            for ln in range(len(p), lo - 1, -1):
+                if whole[pos:pos + ln] == p[:ln] and rec(pos + ln, k + 1):
+                    r = True
+                    break
+        memo[key] = r
+        return r
+    return rec(0, 0)
+
+
+def together_alone_diff(dT, dA):
+    """compiled decoder: observation of the together-message vs the observations of the alone messages"""
+    bad = [k for k, d in enumerate(dA) if d[0] != 'ok']
+    if dT[0] != 'ok':
+        if not bad:
+            return 'together fails to decode (%s), every subset alone decodes' % dT[0]
+        if dT[0] != dA[bad[0]][0]:
+            return 'together fails with %s, the first subset that fails alone (%d) with %s' % (dT[0], bad[0], dA[bad[0]][0])
+        return None
+    if bad:
+        return 'subset %d alone fails to decode (%s), together decodes' % (bad[0], dA[bad[0]][0])
+    if len(dT[1]) != len(dA):
+        return 'number of subsets differs'
+    for k in range(len(dA)):
+        why = subset_diff(dT[1][k], dA[k][1][0], 'together', 'alone')
+        if why:
+            return 'subset %d: %s' % (k, why)
+    return None
+
+
+def compiled_stage(c, K, t, alone, strict, info):
+    """The oracle once more with Encoder / Decoder(compiled_template_cache_max=K).  t / alone: what the plain encoder gave
+    for s1..sn together / each alone (None when not computed).  -> problems"""
+    probs = []
+    n = c.n
+    tagK = 'compiled_template_cache_max=%d' % K
+    encT = encode_msg(c, c.valss, K)                      # first use of the template by this encoder: compile
+    encA = [encode_msg(c, [vs], K) for vs in c.valss]     # later uses: the cached program (K >= 1)
+    refused = [k for k, a in enumerate(encA) if a[0] != 'ok']
+    msgs = None
+    if encT[0] != 'ok' and not refused:
+        probs.append(('compiled-encode', '%s: together refused (%s) although every subset alone is encoded' % (tagK, encT[0]), {}))
+    elif encT[0] == 'ok' and refused:
+        probs.append(('compiled-encode', '%s: subset %d alone is refused (%s) although together is encoded' % (tagK, refused[0], encA[refused[0]][0]), {}))
+    elif encT[0] == 'ok':
+        msgs = (encT[1], [a[1] for a in encA])
+        for k in range(n):
+            if encT[2][k] != encA[k][2][0]:
+                probs.append(('compiled-encoder-together-vs-alone', '%s: labels / links the encoder reports for subset %d differ: together %s, alone %s' % (
+                    tagK, k, json.dumps(encT[2][k])[:160], json.dumps(encA[k][2][0])[:160]), {'message_hex': encT[1].hex()}))
+                break
+        if not concat_matches(C.data_bits(encT[1]), [C.data_bits(b) for b in msgs[1]]):
+            probs.append(('compiled-encoder-together-vs-alone', '%s: data bits of together are not the bits of each subset alone in a row' % tagK,
+                          {'message_hex': encT[1].hex(), 'alone_hex': [b.hex() for b in msgs[1]]}))
+    pairs = []
+    if msgs:
+        pairs.append(('messages of the compiled encoder', msgs))
+    if strict and t is not None and t[0] == 'ok' and alone and all(a[0] == 'ok' for a in alone):
+        pm = (t[1], [a[1] for a in alone])
+        if pm != msgs:
+            pairs.append(('messages of the plain encoder', pm))
+            info['compiled_plain_messages'] = True
+    dA0 = None
+    for what, (bT, bAs) in pairs:
+        d1 = C.impl_decode(bT, K)
+        d2 = C.impl_decode(bT, K)
+        dA = [C.impl_decode(b, K) for b in bAs]
+        d3 = C.impl_decode(bT, K)                          # and once more after the alone messages went through the same decoder
+        info['compiled_decodes'] = info.get('compiled_decodes', 0) + 3 + len(bAs)
+        if dA0 is None:
+            dA0 = dA
+        for tag, d in (('first decode', d1), ('second decode', d2), ('decode after the alone messages', d3)):
+            why = together_alone_diff(d, dA)
+            if why:
+                probs.append(('compiled-together-vs-alone', '%s, %s, %s: %s' % (tagK, what, tag, why),
+                              {'message_hex': bT.hex(), 'alone_hex': [b.hex() for b in bAs]}))
+                break
+    if msgs and n > 1:
+        encR = encode_msg(c, c.valss[::-1], K)
+        if encR[0] != 'ok':
+            probs.append(('compiled-permutation', '%s: the subsets in reverse order are refused (%s)' % (tagK, encR[0]), {}))
+        else:
+            if not concat_matches(C.data_bits(encR[1]), [C.data_bits(b) for b in msgs[1][::-1]]):
+                probs.append(('compiled-permutation', '%s: encoding the subsets in reverse order does not give the reversed bit strings' % tagK,
+                              {'message_hex': encR[1].hex()}))
+            dR = C.impl_decode(encR[1], K)
+            info['compiled_decodes'] = info.get('compiled_decodes', 0) + 1
+            why = together_alone_diff(dR, dA0[::-1])
+            if why:
+                probs.append(('compiled-permutation', '%s: reverse order: %s' % (tagK, why), {'message_hex': encR[1].hex()}))
+    info['compiled'] = K
+    return probs
+
 # ---------------------------------------------------------------------------------------------
 # the oracle
 def perms_for(n, rng, quick):
@@ -339,9 +536,9 @@ def perms_for(n, rng, quick):
     return ps
 
 
-def encode_msg(c, valss):
+def encode_msg(c, valss, compiled=None):
     js = C.make_message_json(c.ids, P.py_inputs(valss), False, edition=c.edition)
-    return C.impl_encode(js)
+    return C.impl_encode(js, compiled)
 
 
 def set_n_subsets(b, n):
@@ -356,24 +553,29 @@ def strip_pad(bits, used):
     return bits[:used], (len(bits) >= used and set(rest) <= {'0'} and len(rest) < 16)
 
 
-def evaluate(drv, treq, cases, rng, quick=True):
-    """-> list of (case, problems [(stage, why, extra)], info)"""
+def evaluate(drv, treq, cases, rng, quick=True, ks=None):
+    """-> list of (case, problems [(stage, why, extra)], info).  ks: cache limits of the compiled path to run (default: one
+    per case, rotating with the case index)"""
     out = []
     together = [encode_msg(c, c.valss) for c in cases]
     reqs = [treq]
-    slot = {}
+    slot, cslot = {}, {}
     for i, (c, t) in enumerate(zip(cases, together)):
+        cslot[i] = len(reqs)
+        reqs.append({'op': 'compile', 'ids': c.ids})
         if t[0] == 'ok':
             slot[i] = len(reqs)
             reqs.append({'op': 'dec-subsets', 'ids': c.ids, 'n': c.n, 'bits': C.data_bits(t[1])})
             reqs.append({'op': 'wire', 'ids': c.ids, 'compressed': False, 'n': c.n, 'bits': C.data_bits(t[1])})
     res = drv.batch(reqs) if len(reqs) > 1 else []
+    stash = {}
     for i, (c, t) in enumerate(zip(cases, together)):
         probs, info = [], {'enc': t[0]}
         out.append((c, probs, info))
+        alone = stash[i] = []
         if t[0] != 'ok':
             # an input the encoder refuses as a whole: each subset alone must be refused somewhere as well
-            alone = [encode_msg(c, [vs]) for vs in c.valss]
+            alone.extend(encode_msg(c, [vs]) for vs in c.valss)
             if all(a[0] == 'ok' for a in alone):
                 probs.append(('encode', 'together refused (%s) although every subset alone is encoded' % t[0], {}))
                 # the decoder on the together-message the encoder should have produced: the alone bit strings in a row
@@ -410,7 +612,7 @@ def evaluate(drv, treq, cases, rng, quick=True):
         if why:
             probs.append(('wire-correspondence', why, {'message_hex': bT.hex()}))
         # alone, re-encoded
-        alone = [encode_msg(c, [vs]) for vs in c.valss]
+        alone.extend(encode_msg(c, [vs]) for vs in c.valss)
         if any(a[0] != 'ok' for a in alone):
             k = next(k for k, a in enumerate(alone) if a[0] != 'ok')
             probs.append(('encode', 'subset %d alone is refused (%s) although together is encoded' % (k, alone[k][0]), {}))
@@ -520,6 +722,13 @@ def evaluate(drv, treq, cases, rng, quick=True):
         if rev[0] != 'ok' or C.data_bits(rev[1])[:pos] != ''.join(cuts[::-1]):
             probs.append(('permutation', 'encoding the subsets in reverse order does not give the reversed bit strings (%s)' % rev[0],
                           {'message_hex': bT.hex()}))
+    # the same subsets through the compiled-template path of encoder and decoder
+    for i, (c, t) in enumerate(zip(cases, together)):
+        _, probs, info = out[i]
+        cr = res[cslot[i]]
+        info['closed'] = 'closed' if cr.get('closed') else 'loose' if cr.get('loose') else 'open'
+        for K in (ks if ks is not None else [k_of(c)]):
+            probs.extend(compiled_stage(c, K, t, stash.get(i), info['closed'] != 'open', info))
     for _, probs, _ in out:
         probs.sort(key=lambda p: p[0].endswith('correspondence'))      # oracle failures first (stable)
     return out
@@ -530,6 +739,7 @@ def report(ctx, stage, why, c, extra=None):
     rep['why'] = why
     rep['stage'] = stage
     rep['family'] = c.note
+    rep['compiled_cache_max'] = k_of(c)
     rep.update(extra or {})
     sig = {'stage': stage, 'features': sorted(P.classify(c.ids))}
     # a model/implementation disagreement with the oracle passing is not by itself a failing input of the property
@@ -589,7 +799,7 @@ def process(ctx, drv, treq, cases, rng, tag):
                  nontrivial=(c.n >= 2 and info.get('dec') == 'ok'), sample=len(ctx.samples) < 4)
         ctx.count(tag)
         ctx.count('subsets-%d' % c.n)
-        if tag == 'family':
+        if tag in ('family', 'marker-op'):
             ctx.count('family:' + c.note.split(' ')[0])
         if tag == 'layout':
             for tok in c.note.split(' ')[1:]:
@@ -603,6 +813,13 @@ def process(ctx, drv, treq, cases, rng, tag):
             ctx.count('decode-' + info['dec'])
         if info.get('wire_compared'):
             ctx.count('node-trees-compared-with-model')
+        if 'compiled' in info:
+            ctx.count('compiled:cache-max-%d' % info['compiled'])
+            ctx.count('compiled:template-%s' % info.get('closed'))
+            ctx.count('compiled:decodes', info.get('compiled_decodes', 0))
+            ctx.traces += info.get('compiled_decodes', 0)
+            if info.get('compiled_plain_messages'):
+                ctx.count('compiled:plain-encoder-messages-differ-from-compiled-encoder')
         if 'wired' in info:
             ctx.count('nested-json-' + ('compared' if info['wired'] else 'wiring-fails-both-ways'))
         ctx.count('orders-checked', info.get('perms', 0))
@@ -700,6 +917,13 @@ def run(ctx):
         cases = gen_values(drv, treq, pairs, lrng)
         ctx.count('values-not-generated', len(pairs) - len(cases))
         process(ctx, drv, treq, cases, lrng, 'layout')
+    # marker operators under an operator in force (own random stream)
+    mrng = ctx.rng('marker-op')
+    mg = MarkerOpGen(mrng)
+    pairs = [mg.make(i) for i in range(60 if quick else 1500)]
+    cases = gen_values(drv, treq, pairs, mrng)
+    ctx.count('values-not-generated', len(pairs) - len(cases))
+    process(ctx, drv, treq, cases, mrng, 'marker-op')
 
 
 def replay(ctx, path):
@@ -709,14 +933,15 @@ def replay(ctx, path):
     if 'undischarged' in rep:
         print(json.dumps(rep, default=repr)[:3000])
         return
-    c = P.Case([rep['ids']], rep.get('forced', []), rep['n_subsets'], False, rep.get('edition', 4))
+    c = P.Case([rep['ids']], rep.get('forced', []), rep['n_subsets'], False, rep.get('edition', 4), rep.get('case_index', 0))
     c.valss = rep['values']
     c.note = rep.get('family', '')
     treq = tables_io.group_request()
-    r = evaluate(ctx.driver, treq, [c], ctx.rng('replay'))[0]
+    ks = [rep['compiled_cache_max']] + [k for k in COMPILED_KS if k != rep['compiled_cache_max']] if 'compiled_cache_max' in rep else None
+    r = evaluate(ctx.driver, treq, [c], ctx.rng('replay'), ks=ks)[0]
     for stage, why, extra in r[1]:
         print('replay: %s: %s' % (stage, why))
     if not r[1]:
-        print('replay: together = alone (values, labels, links, nested JSON), encoder bits concatenate, all orders agree')
+        print('replay: together = alone (values, labels, links, nested JSON), encoder bits concatenate, all orders agree; compiled path likewise')
     else:
         report(ctx, r[1][0][0], r[1][0][1], c, r[1][0][2])
